@@ -438,12 +438,18 @@ def run(ctx):
         cls = getattr(mellon, c["est"])
         desc = dict(estimator=c["est"], gp_type=c["gp"], landmarks=c["lm"], kernel=c["kernel"], rank=repr(kw.get("rank", "default")),
                     optimizer=c.get("opt", "L-BFGS-B"), predictor_with_uncertainty=bool(c.get("unc")),
+                    route="fit_predict(x), then the lazily built est.predict" if ci % 2 else "fit(x)",
                     n=int(x.shape[0]), d=int(x.shape[1]), m=None if lm is None else int(lm.shape[0]),
                     normalize_per_time_point=repr(normalize), data_seed=ci, verif_seed=ctx.seed,
                     x=x.tolist(), landmarks_array=None if lm is None else lm.tolist())
         try:
             est = cls(**kw)
-            est.fit(x)
+            # every other configuration reaches its predictor through the lazy route (fit_predict builds no predictor; the
+            # `predict` attribute builds it on first access): the statement is about the predictor however it came about
+            if ci % 2:
+                est.fit_predict(x)
+            else:
+                est.fit(x)
         except ValueError:
             counts["refused"] += 1          # inconsistent option combination (C15 decides which are)
             continue
